@@ -44,7 +44,7 @@ def layout_gen_sources(seed, n):
         out.append(gen_src("layout%d" % i, seed + i, num_hosts=nh, num_services=nsrv, num_os=nos,
                            num_processes=nproc, address_space_bounds=(6 + i % 5, 5 + (i * 2) % 6),
                            uniform=(i % 2 == 0), r_sensitive=10 + i, r_user=7.5, base_host_value=(i % 3) - 1,
-                           host_discovery_value=0.5 * (i % 4), step_limit=50))
+                           host_discovery_value=[0, 0.5, -3, 150, 1.5][i % 5], step_limit=50))
     return out
 
 
@@ -204,6 +204,9 @@ CHECKS["C17"] = checks_fmt.check_c17
 CHECKS["C18"] = checks_fmt.check_c18
 REPLAYS["C17"] = checks_fmt.replay_doc
 REPLAYS["C18"] = checks_fmt.replay_doc
+from harness import checks_plan   # noqa: E402
+CHECKS["C16"] = checks_plan.check_c16
+REPLAYS["C16"] = replay_dynamic
 
 
 def main():
